@@ -67,15 +67,29 @@ def _tok_list(case):
 
 
 def _sig_server_close_vs_receive(case, params):
-    """server, close-code oracle, code 1000 reported although no peer close frame was consumed, and some close()
-    was issued (close racing a blocked receive / EOF)."""
-    return (case.get("side") == "S" and case.get("kind") == "close_code" and case.get("observed_code") == 1000
-            and any(t[0] == "c" and t[2] == "k" for t in _tok_list(case)) and any(t[0] == "c" and t[2] == "r" for t in _tok_list(case)))
+    """server, close-code oracle: a provisional code stored by receive() (1000 by the CLOSING / EofStream handlers,
+    the error code by the WebSocketError handler) survives because close() was issued by another task."""
+    toks = _tok_list(case)
+    code = case.get("observed_code")
+    provisional = code == 1000 or any(t[0] in "pq" and t[1] == "b" and int(t[2:]) == code for t in toks)
+    return (case.get("side") == "S" and case.get("kind") == "close_code" and provisional
+            and any(t[0] == "c" and t[2] == "k" for t in toks) and any(t[0] == "c" and t[2] == "r" for t in toks))
 
 
 def _sig_server_cancel_cw(case, params):
-    return (case.get("side") == "S" and case.get("kind") == "transport_open"
-            and any(t[0] == "x" for t in _tok_list(case)) and any(t[0] == "c" and t[2] == "k" for t in _tok_list(case)))
+    """server, a close() was cancelled: session closed with the transport open (and, if the receiver was cancelled
+    too, no close code at all)"""
+    return (case.get("side") == "S"
+            and (case.get("kind") == "transport_open" or (case.get("kind") == "close_code" and case.get("observed_code") is None))
+            and any(t[0] == "x" for t in _tok_list(case)) and any(t[0] == "c" and t[2] == "k" for t in _tok_list(case))
+            and any(t[0] == "c" and t[2] == "r" for t in _tok_list(case)))
+
+
+def _sig_client_eof_overwrite(case, params):
+    """client, two close() calls racing a blocked receive(): 1000 reported"""
+    toks = _tok_list(case)
+    return (case.get("side") == "C" and case.get("kind") == "close_code" and case.get("observed_code") == 1000
+            and sum(1 for t in toks if t[0] == "c" and t[2] == "k") >= 2 and any(t[0] == "c" and t[2] == "r" for t in toks))
 
 
 def _sig_client_error_code(case, params):
@@ -98,6 +112,7 @@ SIGNATURES = {
     "server_close_code_1000_without_peer_close": _sig_server_close_vs_receive,
     "server_cancelled_close_leaves_transport_open": _sig_server_cancel_cw,
     "client_protocol_error_code_reported": _sig_client_error_code,
+    "client_eof_handler_overwrites_close_code": _sig_client_eof_overwrite,
     "client_close_timeout_restarts_per_message": _sig_client_close_timeout_restart,
 }
 
